@@ -96,13 +96,14 @@ CHECKS = {
         technique="Lean 4 proof (fold invariant + position-independent lookup) + L2 differential on dispatch_reply",
         note=TB + " Reply handlers must return the contract's own error type (the generated dispatcher performs no conversion)."),
     "C08": dict(
-        text="Machine-checked proofs: table ids are distinct and numeric ids injective on id strings; the requested trigger is always iff an always method or both success and "
-             "error methods exist; builders on SubMsg keep message and gas limit, converters drop the gas limit; canonical payload values decode back to themselves (one and "
-             "several values). Tie: the real SubMsgMethods on the three receiver types and the round trip builder -> reply -> handler in compiled generated contracts. "
-             "Injectivity of the id *string* on method names is not proved: names outside the C01 shape can share an id (recorded limitation: foo1 / foo_1).",
+        text="Machine-checked proofs: table ids are distinct and numeric ids injective on id strings; the id string (UPPER_SNAKE of the handler name) is injective on handler "
+             "names of the C01 shape (the pieces are recovered by splitting on `_` and re-parsing letters/digits), with the counterexample outside the shape (foo1 / foo_1) proved "
+             "as well; the requested trigger is always iff an always method or both success and error methods exist; builders on SubMsg keep message and gas limit, converters "
+             "drop the gas limit; canonical payload values decode back to themselves (one and several values). Tie: the real SubMsgMethods on the three receiver types and the "
+             "round trip builder -> reply -> handler in compiled generated contracts.",
         design="§8 C08",
         technique="Lean 4 proof + L2 differential on SubMsgMethods and dispatch_reply round trips",
-        note=TB + " Partial: id-string injectivity on the name shape is only exercised by the stream."),
+        note=TB + " Names outside the C01 shape can share an id string (then the generated constants collide at compile time)."),
     "C09": dict(
         text="Machine-checked proof of the documented mode table: the guard chain regenerated from reply.rs equals the documented one (obligation), and for each of the six "
              "modes and every data / envelope-parser outcome the extraction yields the documented value or error; an extraction error is returned without a handler call. "
